@@ -331,6 +331,7 @@ HAND = [
     "h = source_iter(0..1) -> optional(); source_iter(0..5) -> map(|x| { let _ = #{1} mut h; x }) -> null(); source_iter(0..2) -> for_each(|x| { let _ = #{0} h; });",
     "source_iter(0..5) -> handoff() -> handoff() -> null();",
     "source_iter(0..5) -> union() -> tee() -> null();",
+    "i1 = source_iter([1]); i2 = source_iter([2]); loop { i1 -> batch() -> for_each(drop); i2 -> batch() -> map(|x| x + #s) -> for_each(drop); }; s = source_iter([5]) -> fold(|| 0, |a, x| *a += x) -> singleton();",
 ]
 
 
